@@ -122,3 +122,35 @@ Definition writes_performed (cur_magic src_mtime : N) (m : option (N * N)) : N :
   let magic_after_first := if first then cur_magic
                            else match m with Some (_, mg) => mg | None => cur_magic end in
   (if first then 1 else 0) + (if magic_after_first =? cur_magic then 0 else 1).
+
+(* ---- util.verify_directory, any number of concurrent callers ---------------------------- *)
+(*   while not os.path.exists(dir_):
+         try: tries += 1; os.makedirs(dir_, 0o755)
+         except: if tries > 5: raise                                                        *)
+From MakoV Require Import Lib.Assoc.
+Inductive vpc := VCheck | VMake | VDone | VRaised.
+Record vthread := { v_pc : vpc; v_tries : N }.
+Record vstate := { dir_exists : bool; vthreads : list (N * vthread) }.
+
+Definition vstep (s : vstate) (i : N) : vstate :=
+  match nget i (vthreads s) with
+  | None => s
+  | Some t =>
+      match v_pc t with
+      | VCheck =>
+          {| dir_exists := dir_exists s;
+             vthreads := nset i {| v_pc := if dir_exists s then VDone else VMake; v_tries := v_tries t |} (vthreads s) |}
+      | VMake =>
+          let tr := v_tries t + 1 in
+          if dir_exists s then            (* makedirs raises FileExistsError *)
+            {| dir_exists := true;
+               vthreads := nset i {| v_pc := if 5 <? tr then VRaised else VCheck; v_tries := tr |} (vthreads s) |}
+          else
+            {| dir_exists := true; vthreads := nset i {| v_pc := VCheck; v_tries := tr |} (vthreads s) |}
+      | _ => s
+      end
+  end.
+
+Definition vrun (s : vstate) (sched : list N) : vstate := fold_left vstep sched s.
+Definition vfresh (ts : list (N * vthread)) : bool :=
+  forallb (fun it => match v_pc (snd it) with VCheck => v_tries (snd it) =? 0 | _ => false end) ts.
